@@ -62,11 +62,11 @@ type Traffic struct{ V4, V6, Drops uint64 }
 // Block is one written block.
 type Block struct {
 	TS      int64
-	Flows   []Flow        // flow-level content (nil for raw-level blocks)
-	Raw     *[8][]byte    // raw-level column payloads (nil for flow-level blocks)
-	Traffic Traffic       // as handed to the writer
-	Counts  Counters      // as handed to the writer
-	Enc     string        // encoder used by the write session (informational)
+	Flows   []Flow     // flow-level content (nil for raw-level blocks)
+	Raw     *[8][]byte // raw-level column payloads (nil for flow-level blocks)
+	Traffic Traffic    // as handed to the writer
+	Counts  Counters   // as handed to the writer
+	Enc     string     // encoder used by the write session (informational)
 }
 
 // Day is the ordered list of blocks of one (iface, day).
